@@ -6,7 +6,8 @@ LEVEL_TEXT = ("Decides only the second sentence of C07 (the nesting reported for
               "before the head is appended, children are visited after the append, the nesting is restored on every exit, "
               "operator+= appends at the end, and nobody else writes the nesting table. The first sentence (each reachable "
               "node once, proper nesting, edge condition for every graph) is a property of an iterative graph algorithm "
-              "over all graphs and is NOT decided by static analysis.")
+              "over all graphs and is NOT decided by static analysis; only one structural necessary condition of it is: every write of a DFS "
+              "frame's `_min` in wto::visit is a min-update (C07.r5).")
 ASSUMPTIONS = ["the component structure handed to nesting_builder is Bourdoncle's WTO (not decided)"]
 
 
@@ -27,3 +28,63 @@ def r4_append(ctx):
 
 
 RULES = [r1_nesting, r3_writers, r4_append]
+
+
+from ..tree import walk, strip, is_call, same_expr, src, deref   # noqa: E402
+from .. import paths                                            # noqa: E402
+from ..match import cmp_parts                                   # noqa: E402
+
+WTO = "include/crab/fixpoint/wto.hpp"
+
+
+def r5_min_update(ctx):
+    ctx.rule("C07.r5", "wto::visit: `_min` of a DFS frame is the minimum dfn seen in the frame's subtree, so every write `F._min = E` is "
+             "guarded by a comparison of E with the SAME F._min (E <= F._min / F._min > E)", floor=2)
+    fs = [f for f in ctx.db.fns(WTO, name="visit") if (f.get("cpk") or "").endswith("::wto") and
+          any(isinstance(x, dict) and x.get("k") == "mem" and x.get("n") == "_min" for x in walk(f["body"]))]
+    if not ctx.need(fs, "wto::visit (non-recursive)"):
+        return
+    for fn in fs:
+        body = fn["body"]
+        g = paths.guards(body)
+        n = 0
+        for a in walk(body):
+            L = R = None
+            if a.get("k") == "asg":
+                L, R = strip(a.get("L")), strip(a.get("R"))
+            elif a.get("k") == "call" and a.get("op") == "=" and "o" in a and a.get("a"):
+                L, R = strip(a["o"]), strip(a["a"][0])
+            if not (isinstance(L, dict) and L.get("k") == "mem" and L.get("n") == "_min"):
+                continue
+            n += 1
+            good = False
+            for c, p in g.get(id(a), ()):
+                if isinstance(c, tuple) or not p:
+                    continue
+                stack = [strip(c)]
+                while stack:
+                    x = stack.pop()
+                    if isinstance(x, dict) and x.get("k") == "bin" and x.get("op") == "&&":
+                        stack += [strip(x.get("L")), strip(x.get("R"))]
+                        continue
+                    pp = cmp_parts(x)
+                    if not pp:
+                        continue
+                    op, u, v = pp
+                    u, v = strip(u), strip(v)
+                    if op in ("<=", "<") and same_expr(u, R) and same_expr(v, L):
+                        good = True
+                    if op in (">=", ">") and same_expr(u, L) and same_expr(v, R):
+                        good = True
+            if good:
+                ctx.ok("min-update %s = %s" % (src(L), src(R)), fn, a)
+            else:
+                gs = " && ".join(src(c)[:60] for c, p in g.get(id(a), ()) if not isinstance(c, tuple))
+                ctx.bad("wto::visit writes `%s = %s` under `%s`, which does not compare %s with %s itself: the frame's min can be RAISED "
+                        "again after an earlier successor lowered it, the component head is then mis-detected and nodes are dropped from "
+                        "the ordering" % (src(L), src(R), gs, src(R), src(L)), fn, a, sig="min-update:%s=%s" % (src(L), src(R)))
+        if n == 0:
+            ctx.fail("rule C07.r5: no write of `_min` found in wto::visit")
+
+
+RULES += [r5_min_update]
